@@ -10,7 +10,7 @@ RULE = ('case = (tree of instrumented objects FNode/FNode2/FLazySub (FNode2: pri
         'tuples, dict values, comments, trailing comments and second references to already printed nodes (sharing), fault plan). Fault enumeration: for every ordered tree shape '
         'with <= 5 instrumented nodes x 4 edge-wrapper patterns x 3 class patterns, each node in turn (= each printer '
         'invocation in turn: every node is printed exactly once) raises each of 7 exception classes (incl. TypeError and a '
-        'custom subclass) before / after printing its children; pairs of faults are sampled (Hypothesis), as are larger '
+        'custom subclass) before / after printing its children; pairs of faults and faults on the n-th invocation only (a commented dict value is rendered twice) are sampled (Hypothesis), as are larger '
         'random trees; bad return values (5, None, bytes) at the top level and nested. Oracle: output == output of the '
         'same tree with the faulted object replaced by a leaf whose healthy printer returns repr(original) (identical '
         'document => identical layout); a "raised an exception" UserWarning for the failing printer invocations (none if the fault is never reached, at most one each), naming '
@@ -147,6 +147,12 @@ def fixed_cases():
     yield {'tree': t, 'faults': [[0, 'ValueError', 'before']]}                       # D11
     yield {'tree': ['list', [['tcmt', 't', ['fn2', 'x', []]], ['int', 1]]], 'faults': [[0, 'KeyError', 'after']]}
     yield {'tree': ['fn', 'top', []], 'badret': [0, 'int']}
+    # a fault on one invocation only of a printer that runs twice (commented dict value)
+    for nth in (1, 2):
+        for w_text in ('c', 'a comment that is long enough to be put above the value it belongs to'):
+            for phase in ('before', 'after'):
+                yield {'tree': ['dict', [['k', ['cmt', w_text, ['fn', 'a', [['int', 1]]]]], ['z', ['int', 0]]]], 'faults': [[0, 'ValueError', phase, nth]]}
+                yield {'tree': ['list', [['dict', [['k', ['cmt', w_text, ['fn2', 'a', []]]]]], ['fn', 'b', []]]], 'faults': [[0, 'KeyError', phase, nth]]}
     # the same failing object referenced twice (sharing, no cycle)
     for exc in ('ValueError', 'TypeError'):
         for phase in ('before', 'after'):
@@ -175,9 +181,20 @@ def strategy(tier):
         )
     tree = st.recursive(st.one_of(leaf, st.tuples(st.sampled_from(['fn', 'fn2', 'fn3']), tags, st.just([])).map(list)), ext, max_leaves=10)
     fault = st.tuples(st.integers(0, 12), st.sampled_from(EXCS), st.sampled_from(['before', 'after'])).map(list)
-    faulty = st.fixed_dictionaries({'tree': tree, 'faults': st.lists(fault, min_size=1, max_size=2)})
+    nth_fault = st.tuples(st.integers(0, 12), st.sampled_from(EXCS), st.sampled_from(['before', 'after']), st.sampled_from([1, 2])).map(list)
+    faulty = st.fixed_dictionaries({'tree': tree, 'faults': st.one_of(st.lists(fault, min_size=1, max_size=2), st.lists(nth_fault, min_size=1, max_size=1))})
     bad = st.fixed_dictionaries({'tree': tree, 'badret': st.tuples(st.integers(0, 12), st.sampled_from(['int', 'none', 'bytes', 'list'])).map(list)})
     return st.one_of(faulty, faulty, faulty, bad)
+
+
+def _ast_with_reprs(text):
+    import ast
+    import re
+    src = re.sub(r'<(FNode2?|FLazySub|FLazyBase) ([^<>]*)>', lambda m: '__R__(%r, %r)' % (m.group(1), m.group(2)), text)
+    try:
+        return ast.dump(ast.parse('(' + src + '\n)', mode='eval'))
+    except SyntaxError:
+        return None
 
 
 BADRET = {'int': (5,), 'none': (None,), 'bytes': (b'',), 'list': (['x'],)}
@@ -229,18 +246,25 @@ def oracle(case):
             return core.viol('later-print-affected', '%r vs %r' % (again.text, base.text))
         return core.ok(victim is not nodes[0], ['badret', what])
     victims = {}
-    for i, exc, phase in case['faults']:
+    nth_mode = False
+    for f in case['faults']:
+        i, exc, phase = f[0], f[1], f[2]
+        nth = f[3] if len(f) > 3 else None
+        if nth is not None and '"ref"' in core.canonical(case['tree']):
+            nth = None      # with several references to one node "the n-th invocation" is not tied to one occurrence
         n = nodes[i % len(nodes)]
         if id(n) not in victims:
             victims[id(n)] = n
-            n.fault = (exc, phase)
+            n.fault = (exc, phase, nth)
+            nth_mode = nth_mode or nth is not None
     try:
         for n in nodes:
             n.calls = 0
+            n.fired = 0
         p = values.pp(root, width=60)
-        invoked = [n for n in victims.values() if n.calls > 0]
+        invoked = [n for n in victims.values() if n.fired > 0]
         # a commented dict value is rendered twice, so a printer may legitimately run (and fail) twice
-        ncalls = sum(n.calls for n in victims.values())
+        ncalls = sum(n.fired for n in victims.values())
     finally:
         faults_set = {id(n): n.fault for n in victims.values()}
         for n in victims.values():
@@ -252,7 +276,19 @@ def oracle(case):
     q = values.pp(expected_root, width=60)
     if q.exc is not None:
         raise core.HarnessError('replacement tree failed to print: %r' % (q.exc,))
-    if p.text != q.text:
+    if nth_mode:
+        # only one of several invocations of the same printer failed (a commented dict value is rendered once for the
+        # end-of-line layout and once for the comment-above layout): the layout shows one rendering or the other
+        # (which one decides the layout too, so the comparison is on the syntax tree: comments and layout aside, the
+        # output must be the healthy one or the one with exactly the faulted value replaced by its repr)
+        ok_texts = (base.text,) if ncalls == 0 else (base.text, q.text)
+        if p.text not in ok_texts:
+            dumps = [_ast_with_reprs(t) for t in ok_texts]
+            got = _ast_with_reprs(p.text)
+            if got is None or got not in dumps:
+                return core.viol('not-contained', 'faults %r\noutput\n%s\nexpected (up to layout) the healthy output or\n%s' % (
+                    case['faults'], p.text[:700], q.text[:700]), labels)
+    elif p.text != q.text:
         return core.viol('not-contained', 'faults %r\noutput\n%s\nexpected (faulted value as repr leaf)\n%s' % (
             case['faults'], p.text[:700], q.text[:700]), labels)
     fw = p.fallback_warnings()
